@@ -9,6 +9,7 @@ evaluated directly on the implementation with a recording writer.
 from __future__ import annotations
 
 import itertools
+import os
 import json
 import threading
 
@@ -65,6 +66,36 @@ class Writer:
 
     def __dask_tokenize__(self):
         return ("verif-writer", id(self))
+
+
+def sink_writer(cfg, dst):
+    """the real MPUFileSink (odc/geo/cog/_mpu_fs.py) with the limits of `cfg`, recording like Writer"""
+    from odc.geo.cog._mpu_fs import MPUFileSink
+
+    class RecSink(MPUFileSink):
+        def __init__(self):
+            super().__init__(dst, min_write_sz=cfg["minw"], max_write_sz=1 << 40, min_part=cfg["minp"], max_part=cfg["maxp"])
+            self.log = []
+            self.final = None
+            self._lock = threading.Lock()
+
+        def __call__(self, part, data):
+            rec = (int(part), bytes(data))
+            with self._lock:
+                self.log.append(rec)
+            out = super().__call__(part, data)
+            out["data"] = bytes(data)
+            return out
+
+        def finalise(self, parts, keep_parts=False):
+            self.final = [(p["PartNumber"], p["data"]) for p in parts]
+            super().finalise(parts, keep_parts)
+            return self.final
+
+        def __dask_tokenize__(self):
+            return ("verif-sink", id(self))
+
+    return RecSink()
 
 
 def snapshot(c):
@@ -139,10 +170,11 @@ def run_real(cfg, tree):
     return res
 
 
-def run_dask(cfg, partitions, substreams, scheduler, seed, recompute=False):
+def run_dask(cfg, partitions, substreams, scheduler, seed, recompute=False, sink=False):
     """End to end: mpu_write over dask bags.  partitions: list of chunk-size lists; substreams:
     how many consecutive partitions each bag takes.  recompute: the same graph is computed twice and the
     SECOND execution is the one observed (a task graph must not be consumed by its first execution).
+    sink: the parts go to the real MPUFileSink (limits of cfg) and the assembled file is read back.
     Returns (tree, result dict)."""
     import dask
     import dask.bag
@@ -156,7 +188,13 @@ def run_dask(cfg, partitions, substreams, scheduler, seed, recompute=False):
     parts = stream(t_for_stream)
     first_id = [p[0][1] for p in parts]
     last_id = [p[-1][1] for p in parts]
-    w = Writer(cfg)
+    workdir = None
+    if sink:
+        import tempfile
+        workdir = tempfile.mkdtemp(prefix="verif-c06-")
+        w = sink_writer(cfg, os.path.join(workdir, "out.bin"))
+    else:
+        w = Writer(cfg)
     merges = []
     orig = M.MPUChunk.merge
 
@@ -198,11 +236,18 @@ def run_dask(cfg, partitions, substreams, scheduler, seed, recompute=False):
             rr = fut.compute(**kw)
         res["out"] = {"final": rr, "log": list(w.log),
                       "obs": [(len(d), i) for part in parts for d, i in part]}
+        if sink:
+            with open(os.path.join(workdir, "out.bin"), "rb") as f:
+                res["out"]["file"] = f.read()
+            res["out"]["leftover"] = sorted(x for x in os.listdir(workdir) if x != "out.bin")
     except Exception as e:  # noqa: BLE001
         res["out_err"] = err_kind(e)
         res["exc"] = repr(e)
     finally:
         M.MPUChunk.merge = orig
+        if workdir is not None:
+            import shutil
+            shutil.rmtree(workdir, ignore_errors=True)
     # reconstruct the executed tree from the merge records (ranges of chunk ids -> ranges of leaves)
     leaf_of_first = {f: j for j, f in enumerate(first_id)}
     leaf_of_last = {l: j for j, l in enumerate(last_id)}
@@ -338,6 +383,8 @@ def clauses(cfg, tree, r):
     got = b"".join(d for _, d in by_id)
     if got != want:
         bad.append(("bytes", f"concatenated parts (len {len(got)}) != header+chunks+footer (len {len(want)})"))
+    if "file" in o and (o["file"] != want or o["leftover"]):
+        bad.append(("sink-file", f"file assembled by MPUFileSink has {len(o['file'])} bytes, want {len(want)}; left behind: {o['leftover']}"))
     if len(set(ids)) != len(ids):
         bad.append(("ids-unique", f"part numbers {ids}"))
     if any(not (cfg["minp"] <= i <= cfg["maxp"]) for i in ids):
@@ -413,8 +460,8 @@ def run(out, tier, scratch):
     # corpus first
     for rp in core.corpus(ID):
         if rp.get("predicate") == "dask":
-            cfg, partitions, subs, sched, again = rp["args"]
-            tree, r = run_dask(cfg, partitions, subs, sched, 0, recompute=again)
+            cfg, partitions, subs, sched, again = rp["args"][:5]
+            tree, r = run_dask(cfg, partitions, subs, sched, 0, recompute=again, sink=bool(rp["args"][5:] and rp["args"][5]))
             out.count("corpus:dask")
             if tree is not None:
                 judge(cfg, tree, r, "corpus " + rp["_file"], rp["args"])
@@ -476,15 +523,30 @@ def run(out, tier, scratch):
             subs = [n]
         sched = "threads" if i % 3 == 0 else "synchronous"
         again = i % 4 == 1
-        tree, r = run_dask(cfg, partitions, subs, sched, i, recompute=again)
-        out.count(f"dask:{sched}" + (":computed-twice" if again else ""))
+        sink = i % 5 in (2, 3)
+        if sink and i % 2:
+            cfg["minw"] = 0          # a writer without a minimum part size: zero-length parts are legitimate
+        if i in (7, 23):
+            # more partitions than dask.bag.from_sequence puts one-per-partition by default (100)
+            n = 101 + i
+            cfg = rand_cfg(rng, n, tight=False)
+            partitions = [[rng.choice([0, 1, cfg["minw"], 2 * cfg["minw"] + 1])] for _ in range(n)]
+            subs = [n] if i == 7 else [60, n - 60]
+        tree, r = run_dask(cfg, partitions, subs, sched, i, recompute=again, sink=sink)
+        out.count(f"dask:{sched}" + (":computed-twice" if again else "") + (":file-sink" if sink else ""))
         if tree is None:
-            out.oblige("e2e:merge tree reconstruction", "correspondence", False, f"could not rebuild tree {partitions} {subs}")
+            if "out" not in r:       # the write itself failed: that is the property's last clause, whatever the tree
+                flat = {"leaf": partitions[0]}
+                for x in partitions[1:]:
+                    flat = [flat, {"leaf": x}]
+                judge(cfg, flat, r, f"dask {sched} case {i}", [cfg, partitions, subs, sched, again, sink])
+            out.oblige("e2e:merge tree reconstruction", "correspondence", False,
+                       f"could not rebuild tree {str(partitions)[:300]} {subs}" + (f" ({r.get('exc')})" if "out" not in r else ""))
             continue
         e2e_cases.append(case_end(cfg, tree, r))
         out.case(("e2e", json.dumps(cfg, sort_keys=True), json.dumps(tree)), True)
         judge(cfg, tree, r, f"dask {sched} case {i}" + (" (second compute of the same graph)" if again else ""),
-              [cfg, partitions, subs, sched, again])
+              [cfg, partitions, subs, sched, again, sink])
 
     fails, log = core.coq_eval_failures(["Base.Result", "Model.Mpu", "Model.MpuCases"], "case", "check", cases, scratch,
                                         shard=60, tag="mpu")
@@ -528,8 +590,8 @@ def run(out, tier, scratch):
             judge(cfg, tree, r, "disagreeing case")
 
 
-def p_dask(cfg, partitions, subs, sched, again):
-    tree, r = run_dask(cfg, partitions, subs, sched, 0, recompute=again)
+def p_dask(cfg, partitions, subs, sched, again, sink=False):
+    tree, r = run_dask(cfg, partitions, subs, sched, 0, recompute=again, sink=sink)
     if tree is None:
         tree = {"leaf": partitions[0]}
         for x in partitions[1:]:
